@@ -50,6 +50,7 @@ class DebSpec(FnSpec):
         self.fresh_shared(ex)
         self.notified = False
         self.sec_start = None
+        self.last_wait = None
         self.callbacks = []
 
     def fresh_shared(self, ex):
@@ -93,6 +94,9 @@ class DebSpec(FnSpec):
         P = lambda s: z3.Or(s["events"].n > 0, s["stopped"])
         if not self.notified:
             ex.oblige(f"{where}[signalling: wait predicate made true => notify]", z3.Not(z3.And(z3.Not(P(self.sec_start)), P(self.st(ex)))), kind="signalling")
+            # the debounce wait is a timed wait for 'another event arrived': it can only tell a quiet interval from a
+            # busy one if EVERY section that hands in an event notifies (this is what the timed wait's contract relies on)
+            ex.oblige(f"{where}[signalling: every event handed in notifies (restarts the quiet interval)]", self.st(ex)["handled"].n == self.sec_start["handled"].n, kind="signalling")
         ex.held.remove(COND)
 
     def on_with(self, ex, cv, node, entering):
@@ -121,10 +125,19 @@ class DebSpec(FnSpec):
                 ex.oblige("wait-predicate[untimed wait only while nothing is pending and not stopped]", z3.And(s["events"].n == 0, z3.Not(s["stopped"])), kind="signalling")
             for nm, f in self.inv(self.st(ex)):
                 ex.oblige(f"wait-entry[I:{nm}]", f, kind="lock-invariant")
+            before = self.st(ex)
             self.havoc(ex)
             self.sec_start = self.st(ex)
             self.notified = False
-            return VBool(ex.fresh_term(z3.BoolSort(), "notified")) if timed else True
+            if not timed:
+                self.last_wait = ("untimed", None)
+                return True
+            ret = ex.fresh_term(z3.BoolSort(), "notified")
+            # guarantee of every other section (proved above for handle_event/stop): handing in an event notifies - so a
+            # timed wait that returns False (timeout) saw no event arrive during the whole interval
+            ex.assume(z3.Implies(z3.Not(ret), self.sec_start["handled"].n == before["handled"].n))
+            self.last_wait = ("timed", ret)
+            return VBool(ret)
 
         def ev_set(ex, recv, a, k, n):
             ex.oblige("stop flag set with the lock held", COND in ex.held, kind="lock")
@@ -150,9 +163,36 @@ class DebSpec(FnSpec):
             ex.oblige("callback[batch = every event handed in since the last batch, in arrival order, none twice]",
                       z3.And(batch.n == h.n - D, batch.n > 0, z3.ForAll([j], z3.Implies(z3.And(0 <= j, j < batch.n), batch.arr[j] == h.arr[D + j]))))
             ex.oblige("callback[pending list already reset: nothing is delivered twice]", s["events"].n == 0)
+            lw = getattr(self, "last_wait", None)
+            ex.oblige("callback[quiet interval: with a debounce interval the batch is delivered straight after a timed wait that ran out with no event arriving]",
+                      z3.Implies(self.interval != 0, z3.And(z3.BoolVal(lw is not None and lw[0] == "timed"), z3.Not(lw[1]) if lw is not None and lw[0] == "timed" else z3.BoolVal(False))))
             self.g["D"] = h.n
         self.callbacks.append(batch)
         return None
+
+
+class DebInit(FnSpec):
+    relpath, qualname, prop = DEB, "EventDebouncer.__init__", PROP
+
+    def __init__(self, W):
+        self.W, self.world = W, W
+        self.var_types = {"self._events": W.L}
+
+    def globals(self):
+        return {"BaseThread.__init__": lambda ex, recv, a, k, n: None, "threading.Condition": lambda ex, a, k, n: VOpaque("cond", COND)}
+
+    def setup(self, ex):
+        self.me = VObj("EventDebouncer")
+        self.cb = VOpaque("callable", lambda *a: None)
+        return {"self": self.me, "debounce_interval_seconds": VReal(ex.fresh_term(z3.RealSort(), "interval")), "events_callback": self.cb}
+
+    def post(self, ex, result):
+        H = ex.heap
+        ev = H.get((self.me.id, "_events"))
+        ex.oblige("post[nothing pending: delivered ++ pending = handled holds for the empty history]", isinstance(ev, VList) and z3.is_true(z3.simplify(ev.n == 0)))
+        c = H.get((self.me.id, "_cond"))
+        ex.oblige("post[one condition variable guards the pending list]", isinstance(c, VOpaque) and c.kind == "cond")
+        ex.oblige("post[callback stored]", H.get((self.me.id, "events_callback")) is self.cb)
 
 
 class HandleEvent(DebSpec):
@@ -652,7 +692,7 @@ class ShellOnAnyEvent(TrickSpec):
 def make_specs():
     W = DWorld()
     T = TrickWorld()
-    return [HandleEvent(W), Stop(W), Run(W), PWRun(), StopProcess(T), StartProcess(T), RestartProcess(T), TrickStop(T), ShellOnAnyEvent(ShellWorld())]
+    return [DebInit(W), HandleEvent(W), Stop(W), Run(W), PWRun(), StopProcess(T), StartProcess(T), RestartProcess(T), TrickStop(T), ShellOnAnyEvent(ShellWorld())]
 
 
 EXPECTED_CLAUSES = ["EventDebouncer.run.callback[batch = every event handed in since the last batch", "EventDebouncer.run.callback[not after stop()", "EventDebouncer.run.wait-predicate[untimed wait only while nothing is pending",
